@@ -125,6 +125,53 @@ def build_lscr(handlers, constants=(), props=(), globs=(), scr_num=1, cont_scr_n
     return hdr + blob
 
 
+# ---------------------------------------------------------------------------------------------- hostile layouts (C10)
+
+def build_lscr_raw(body, prb, grb, nfunc, frb, nconst, crb, con):
+    """header with free table offsets/counts; `body` follows the 92-byte header (offsets are absolute)"""
+    total = 92 + len(body)
+    hdr = struct.pack(">iiiihhhhiiiiiihhiii", 0x2d0f36e0, 1, total, total, 0x5c, 1, 2, -1, -1, 0, 0, 0, 0, 0, -1, 0xb, 0, 0x400, 0)
+    hdr += struct.pack(">hhhhhhhhhhhhhh", prb, 0, 0, grb, nfunc, 0, frb, nconst, 0, crb, 0, 0, 0, con)
+    return hdr + body
+
+
+def _frec(name, clen, coff, na, aoff, nl, loff, ng, goff):
+    return struct.pack(">hhiihihihiihhi", name, 0, clen, coff, na, aoff, nl, loff, ng, goff, 0, 0, 0, 0)
+
+
+def fam_shared_locals(k, L):
+    """k function records that all name the SAME table of L local names: k*L rounds / LocalVariable objects (finding F103)"""
+    tbl = struct.pack(">h", 1) * L
+    frb = 92 + len(tbl)
+    body = tbl + b"".join(_frec(0, 0, 92, 0, 92, L, 92, 0, 92) for _ in range(k))
+    end = 92 + len(body)
+    return build_lscr_raw(body, frb, frb, k, frb, 0, end, end)
+
+
+def fam_shared_code(k, c):
+    """k function records that all name the SAME bytecode of c statements `set x = 1`: k*c instructions decoded (finding F103)"""
+    code = b"\x41\x01\x52\x00" * c + b"\x01"
+    code += b"\0" * (len(code) % 2)
+    body = code + struct.pack(">h", 1)
+    frb = 92 + len(body)
+    body += b"".join(_frec(0, 4 * c + 1, 92, 0, 92, 1, 92 + len(code), 0, 92) for _ in range(k))
+    end = 92 + len(body)
+    return build_lscr_raw(body, frb, frb, k, frb, 0, end, end)
+
+
+def fam_shared_consts(k, S):
+    """k string constants that all name the SAME S-byte string: k decoded and escaped copies (finding F104)"""
+    recs = b"".join(struct.pack(">hi", 1, 0) for _ in range(k))
+    cdata = struct.pack(">i", S + 1) + b"a" * S
+    return build_lscr_raw(recs + cdata, 92, 92, 0, 92, k, 92, 92 + len(recs))
+
+
+def fam_empty_loops(n):
+    """the Lean witness family of DrxProps/C10Lscr.lean: `01 54 01` n times = n loops `repeat while TRUE / exit / end repeat`;
+    JumpOpcode.process makes n*(n+3)/2 loop rounds"""
+    return build_lscr([dict(name=0, args=[], locals=[1], code=b"\x01\x54\x01" * n)])
+
+
 # ---------------------------------------------------------------------------------------------- the real code
 
 def _quiet():
